@@ -234,7 +234,10 @@ def main():
                 "evidence_file": f"/verif/evidence/{pid}.json",
                 "replay_cmd_template": f"./check {pid} --replay {{path}}",
                 "engine": engine,
-                "level_claimed": {"category": level, "text": text, "design_ref": ref},
+                "level_claimed": {"category": level, "text": text + " The alphabets also carry the axes that four waves of "
+                                  "independently seeded changes showed to matter (sizes, magnitudes, number types and spellings of "
+                                  "arguments, object state and histories, aliasing, environment): DESIGN.md sections 8.7-8.8; the "
+                                  "evidence file's rule field lists what a run enumerated.", "design_ref": ref},
                 "level_note": note,
                 "technique": tech,
             })
